@@ -143,7 +143,17 @@ def build(ctx, sh):
             c.info = {"lines": lines, "outcome": out.describe()}
             c.v = v
             return c
-        c.b = stmt_bytes(st)
+        try:
+            c.b = stmt_bytes(st)
+        except Exception as e:  # noqa: BLE001 -- image generation failed after a successful assembly: an internal error
+            from vlib.harness import Outcome, _site
+            out = Outcome("internal", out.program, e, _site(e.__traceback__))
+            c.out, c.kind, c.b = out, "internal", None
+            c.v = v
+            c.env = {"v": v, "b": None, "n": None, "size": None, "max_size": None, "kind": "internal", "exc": out.exc_name,
+                     "site": out.site, "m": m, "form": sh.form, "reg": sh.reg, "msg": str(e)}
+            c.info = {"lines": lines, "outcome": out.describe() + " (get_binary_array)", "bytes": None, "size": None}
+            return c
         c.n = len(c.b)
         c.size = st.code_pkg.size
         c.max_size = st.code_pkg.max_size
@@ -275,9 +285,7 @@ def corpus(tier, seed, what="valid"):
             add(Shape(m, "regs", regs=[]))
         if m in S.PAIR:
             for a, b in S.pairs():
-                if full or (a, b) in (("A", "B"), ("X", "Y"), ("D", "U"), ("A", "X"), ("S", "PC"), ("CC", "DP"),
-                                       ("DP", "D"), ("PC", "PC"), ("B", "B"), ("U", "A")) or rnd.random() < 0.08:
-                    add(Shape(m, "pair", regs=[a, b]))
+                add(Shape(m, "pair", regs=[a, b]))           # all 100 ordered pairs: cheap
         if "rel8" in md or "rel16" in md:
             continue  # branches: C03
         heavy = full or m in reps
